@@ -53,6 +53,29 @@ fn product_name() -> impl Strategy<Value = String> {
         9 => with_special(8),
         2 => (benign(6), any::<u16>()).prop_map(|(b, p)| insert_at(&b, "/", p)),
         1 => proptest::sample::select(vec![".", "..", "...", "-", "_"]).prop_map(str::to_string),
+        // validation puts no bound on the length of a product code
+        2 => (proptest::sample::select(vec![200usize, 480, 500, 520, 1000, 2000]), benign(6)).prop_map(|(n, tail)| format!("{}{tail}", "p".repeat(n))),
+    ]
+}
+
+/// A 32-digit hash, or (one in ten) a spelling close to one that a lenient check may let through:
+/// a sign, a radix prefix, a blank, an underscore, a letter beyond f.
+fn adv_hash() -> impl Strategy<Value = String> {
+    prop_oneof![
+        9 => hash32().boxed(),
+        1 => (hash32(), 0u8..8, any::<u16>()).prop_map(|(h, how, p)| {
+            let at = pick_idx(p, 32);
+            match how {
+                0 => format!("+{}", &h[1..]),
+                1 => format!("-{}", &h[1..]),
+                2 => format!("0x{}", &h[2..]),
+                3 => format!("{} ", &h[1..]),
+                4 => format!(" {}", &h[1..]),
+                5 => format!("{}_{}", &h[..at], &h[(at + 1).min(32)..]),
+                6 => format!("{}g{}", &h[..at], &h[(at + 1).min(32)..]),
+                _ => format!("+{}", &h[1..]).to_ascii_uppercase(),
+            }
+        }).boxed(),
     ]
 }
 
@@ -191,12 +214,12 @@ fn plain_cdn_path() -> impl Strategy<Value = Option<String>> {
 /// although they are not what the field is documented to hold.
 fn build(adv: bool) -> BoxedStrategy<(BuildD, u16)> {
     let text = if adv {
-        (version(), build_number(), hash32(), hash32()).boxed()
+        (version(), build_number(), adv_hash(), adv_hash()).boxed()
     } else {
         (plain_version(), plain_build_number(), hash32(), hash32()).boxed()
     };
     let opt = if adv {
-        (keyring(), proptest::option::weighted(0.5, hash32()), cdn_path()).boxed()
+        (keyring(), proptest::option::weighted(0.5, adv_hash()), cdn_path()).boxed()
     } else {
         (plain_keyring(), proptest::option::weighted(0.5, hash32()), plain_cdn_path()).boxed()
     };
